@@ -453,6 +453,13 @@ fn plan_c09(o: &Opts) -> Vec<GroupSpec> {
             op.program_ds = true;
             op.explicit_default_ds = true;
             op.attrs = attrs.iter().map(|a| a.to_string()).collect();
+            if name == "program_ds_then_measure_rule_times" || name == "generate_run_timeout_then_program_ds" {
+               // ... and part of the program comes from an include: the program-wide attributes stay in force
+               let n_items = prog.rels.len() + prog.rules.len();
+               let a = r.below(n_items + 1);
+               let b = a + r.below(n_items - a + 1);
+               op.include_cut = Some((a, b));
+            }
             let mut m = meta(&base, name, Kind::Ascent, false);
             m.attrs = op.attrs.clone();
             m.labels = vec![format!("packaging:{name}")];
